@@ -162,16 +162,7 @@ class XRunner(c07.Runner):
 
     def request(self, who, ver, cont, specs, stamp='absent', asynchronous=None, undo=False, ids=None, max_size=None):
         eng, tr = self.eng, self.tr
-        conc = []
-        for s in specs:
-            c = dict(s)
-            if 'tgt' in s:
-                c['tgt_uid'] = self.resolve(s['tgt'])
-            if 'w' in s:
-                c['w_uid'] = self.resolve(s['w'])
-            if 'bases' in s:
-                c['base_uids'] = [self.resolve(b) for b in s['bases']]
-            conc.append(c)
+        conc = [c07.concretize(self, s) for s in specs]
         ev_index = len(self.events)
         # ---- fork: a fresh engine object on a copy of the database file, before the live engine sees the request
         other = None
@@ -322,18 +313,9 @@ class SessRunner(XRunner):
 
     def request(self, who, ver, cont, specs, stamp='absent', asynchronous=None, undo=False, ids=None, max_size=None):
         # a client can only send what its own encoder accepts: skip requests that cannot be encoded (nothing has happened yet)
-        conc = []
-        for s_ in specs:
-            c = dict(s_)
-            if 'tgt' in s_:
-                c['tgt_uid'] = self.resolve(s_['tgt'])
-            if 'w' in s_:
-                c['w_uid'] = self.resolve(s_['w'])
-            if 'bases' in s_:
-                c['base_uids'] = [self.resolve(b) for b in s_['bases']]
-            conc.append(c)
+        conc = [c07.concretize(self, s_) for s_ in specs]
         try:
-            self.sd.encode_request(self.build_request(self.eng, conc, ver, cont, stamp, asynchronous, undo, ids, max_size), ver)
+            self.encode(self.build_request(self.eng, conc, ver, cont, stamp, asynchronous, undo, ids, max_size), ver)
         except Exception as e:
             self.ctx.count('skipped.unencodable.%s' % type(e).__name__)
             return None
@@ -405,9 +387,13 @@ class SessRunner(XRunner):
         r['session'] = {'outcome': outcome, 'final': fin, 'final_len': len(data), 'conn': cid, 'engine_len': englen}
         return r
 
+    def encode(self, req, ver):
+        """A client may put any version numbers into the header; the body is then encoded under the 1.2 rules."""
+        return self.sd.encode_request(req, ver if tuple(ver) in kdrv.VERSIONS else (1, 2))
+
     def send(self, eng, conc, who, ver, cont, stamp, asynchronous, undo, ids, max_size=None, live=True):
         req = self.build_request(eng, conc, ver, cont, stamp, asynchronous, undo, ids, max_size)
-        return self.exchange(eng, who, self.sd.encode_request(req, ver), ver, live)
+        return self.exchange(eng, who, self.encode(req, ver), ver, live)
 
     def error_out(self, r):
         if r['session']['outcome'] == 'invalid':
@@ -660,6 +646,15 @@ def gen_history(ctx, rng, run, length, ckp_budget):
                 kw = {'ids': False}
             run.request(c07.pick_who(rng), ver, rng.random() < 0.5, items, **kw)
             n += 1
+            if rng.random() < 0.65:                    # the next request repeats the rejected one's header values
+                ctx.count('pattern.rejected_header_repeated')
+                tgt = c07.gen_target(rng, tr, allow_none=False, dead_bias=0.05)
+                probe = rng.choice([[{'op': 'addr', 'k': 'AGetAttributeList', 'tgt': tgt}], [creating()], [idless(rng)],
+                                    [{'op': 'addr', 'k': rng.choice(c07.KINDS), 'tgt': tgt}]])
+                if kw.get('ids') is False:
+                    probe = probe + [{'op': 'locate'}]
+                run.request(c07.owner_of(tr, eng, tgt, rng), ver, False, probe, **kw)
+                n += 1
             run.request(c07.pick_who(rng), c07.pick_version(rng), False, [idless(rng)])
             n += 1
         elif x < 0.78:
@@ -718,6 +713,19 @@ def scenarios():
             sc.append(('req', 0, (1, 0), False, [{'op': 'addr', 'k': 'AGetAttributeList', 'tgt': ['ref', 0]}], {}))
             sc.append(('req', 0, (1, 2), False, [{'op': 'addr', 'k': 'AEncrypt', 'tgt': None}], {}))
     out.append(sc)
+    # a request rejected at message level, then a probe that repeats the rejected header values (any client)
+    GAL = {'op': 'addr', 'k': 'AGetAttributeList', 'tgt': ['ref', 0]}
+    sc = [('req', 0, (1, 2), False, [C], {})]
+    for last_valid in ((2, 0), (1, 0)):
+        for bad in ((1, 5), (2, 1), (9, 9), (0, 9)):
+            sc += [('req', 0, last_valid, False, [GAL], {}), ('req', 1, bad, False, [C], {}), ('req', 0, bad, False, [GAL], {}),
+                   ('req', 1, bad, False, [C], {}), ('req', 0, (1, 2), False, [GAL], {})]
+        for kw in ({'asynchronous': True}, {'undo': True}, {'stamp': 'stale'}, {'stamp': 'future'}):
+            sc += [('req', 0, last_valid, False, [GAL], {}), ('req', 1, (1, 4), False, [C], dict(kw)), ('req', 0, (1, 4), False, [GAL], dict(kw)),
+                   ('req', 0, (1, 4), False, [GAL], {})]
+        sc += [('req', 1, (1, 3), False, [C, GAL], {'ids': False}), ('req', 0, (1, 3), False, [GAL, C], {'ids': False}),
+               ('req', 0, (1, 3), False, [GAL], {})]
+    out.append(sc)
     return out
 
 
@@ -749,6 +757,17 @@ def conn_scenarios():
     for v in kdrv.VERSIONS:
         sc += [('req', 0, v, False, [L], {'max_size': 200}), ('req', 0, v, False, [G(['ref', 0], 'AGetAttributeList')], {}),
                ('req', 0, (1, 2), False, [G(['ref', 0])], {})]
+    out.append(sc)
+    # a message rejected for its version / time stamp / options, then a message repeating those header values
+    GAL = G(['ref', 0], 'AGetAttributeList')
+    sc = [('req', 0, (1, 2), False, [C], {})]
+    for last_valid in ((2, 0), (1, 0)):
+        for bad in ((1, 5), (2, 1), (9, 9)):
+            sc += [('req', 0, last_valid, False, [GAL], {}), ('req', 1, bad, False, [L], {}), ('req', 0, bad, False, [GAL], {}),
+                   ('req', 0, (1, 2), False, [GAL], {})]
+        for kw in ({'asynchronous': True}, {'undo': True}, {'stamp': 'stale'}):
+            sc += [('req', 0, last_valid, False, [GAL], {}), ('req', 0, (1, 4), False, [L], dict(kw)), ('req', 0, (1, 4), False, [GAL], dict(kw)),
+                   ('bad', 0), ('req', 0, (1, 4), False, [GAL], {})]
     out.append(sc)
     return out
 
@@ -788,13 +807,21 @@ def gen_conn_history(ctx, rng, run, length):
             run.request(who, ver, False, [{'op': 'locate'}], **kw)
         elif x < 0.78:                                 # requests that end early, with a limit in the header
             y = rng.random()
-            if y < 0.4:
+            if y < 0.3:
                 kw['asynchronous'] = True
-            elif y < 0.7:
+            elif y < 0.5:
                 kw['stamp'] = rng.choice(['stale', 'future'])
-            else:
+            elif y < 0.65:
                 kw['undo'] = True
+            else:
+                ver = rng.choice([(1, 5), (2, 1), (9, 9)])
             run.request(who, ver, False, [{'op': 'locate'}], **kw)
+            if rng.random() < 0.7:                     # ... repeated by the next message (same or another connection)
+                ctx.count('pattern.rejected_header_repeated')
+                tgt = c07.gen_target(rng, tr, allow_none=False, dead_bias=0.05)
+                run.request(rng.choice([who, rng.randrange(3)]), ver, False,
+                            [{'op': 'addr', 'k': rng.choice(['AGetAttributeList', 'AGet']), 'tgt': tgt}], **kw)
+                n += 1
         elif x < 0.86:
             run.bad_frame(who)
         elif x < 0.92:
@@ -825,7 +852,7 @@ def replay_events(run, events):
         elif ev['ev'] == 'bad_frame':
             run.bad_frame(ev['who'])
         else:
-            specs = [{k: v for k, v in it.items() if k in ('op', 'good', 'rich', 't', 'bases', 'tgt', 'w', 'k', 'variant', 'pol')}
+            specs = [{k: v for k, v in it.items() if k in ('op', 'good', 'rich', 't', 'bases', 'tgt', 'w', 'k', 'variant', 'pol', 'prot')}
                      for it in ev['items']]
             run.request(ev['who'], tuple(ev['ver']), ev['cont'], specs, stamp=ev.get('stamp', 'absent'),
                         asynchronous=ev.get('async'), undo=ev.get('undo', False), ids=ev.get('ids'), max_size=ev.get('max_size'))
